@@ -79,7 +79,7 @@ def run(ctx):
     # targeted shapes around the refill sites
     inputs += [b'"a\\"b" x=y', b'"ab\\\\\\"c" x=y', b"\x08abc=1 foo=bar baz", b" \xef\xbb\xbfabc=1", b"\xef\xbb\xbfabc=1", b"abcdefghijklmnop=1",
                b"#abcdefghijklmnop\na=1", b"a=b #c", b"a=b #c\n", b"@[1+1]=x", b"a ?= b", b"a != b c>=1 d<=2 e==3 f<4 g>5", b"\x0babc=1 foo=bar baz",
-               b"a=b\n\t\t\t\t\t\t\tc=d", b"x={ y }\n\n\n\n\t\t\t\t z", b'k="' + b"x" * 20 + b'\\"' + b"y" * 9 + b'" z', b"a={ b=c }", b"a=", b"a", b'"', b'"abc', b"{", b"}", b"", b" ", b"\xef", b"\xef\xbb"]
+               b"a=b\n\t\t\t\t\t\t\tc=d", b"x={ y }\n\n\n\n\t\t\t\t z", b"k=v" + b"\n" + b"\t" * 15 + b"w=1", b"k=v" + b"\n\n" + b"\t" * 22 + b"w=1", b"q" + b"\t" * 17 + b"=r", b'k="' + b"x" * 20 + b'\\"' + b"y" * 9 + b'" z', b"a={ b=c }", b"a=", b"a", b'"', b'"abc', b"{", b"}", b"", b" ", b"\xef", b"\xef\xbb"]
     short = [i for i in inputs if len(i) <= 11]
     ctx.count("inputs", len(inputs)); ctx.count("inputs_short_all_compositions", min(len(short), ctx.scale(12, 120)))
 
@@ -103,8 +103,13 @@ def run(ctx):
         # a read that ends exactly after 8 tab/newline bytes, in a recycled buffer whose stale bytes look like braces
         for p in range(1, max(1, n - 8)):
             if inp[p - 1] not in (9, 10) and all(x in (9, 10) for x in inp[p:p + 8]):
-                for fill in (0x7d, 0x7b):
-                    add(inp, n + 9, [p + 8, n], recycled=fill)
+                run_len = 8
+                while p + run_len < n and inp[p + run_len] in (9, 10):
+                    run_len += 1
+                for L in sorted(set([8, 16, 24, run_len - run_len % 8, run_len])):
+                    if 8 <= L <= run_len:
+                        for fill in (0x7d, 0x7b):
+                            add(inp, n + 9, [p + L, n], recycled=fill)
                 add(inp, n + 9, [p + 9, 1, n], recycled=0x7d)
                 break
         # undersized buffers: never a clean end / split token
